@@ -393,6 +393,8 @@ def judge(sm, ir, defaults, fail):
                     cause = "flattened-object-option-skipped"
             if skip:
                 return
+            if s2.get("errors"):
+                cause = "emitted-nested-builder-fails-and-its-error-is-dropped"
             fail({"law": "convert_then_build", "cause": cause},
                  "Build() of the emitted expression: %s %r although the value validates" % (s2["s"], s2.get("paths")))
         return
@@ -412,11 +414,7 @@ def judge(sm, ir, defaults, fail):
             # a nested builder of the emitted expression failed and the error was dropped (C09's finding): the
             # option that received it was silently skipped
             cause = "emitted-nested-builder-fails-and-its-error-is-dropped"
-        elif path and ftype is not None and any(
-                o["Name"] in called and all((len(a["Path"]) == 1 or a["Method"] in ("index", "append"))
-                                            and (a["Value"].get("Argument") or {}).get("Type") is not None
-                                            and ir.has_builder(a["Value"]["Argument"]["Type"]) for a in o.get("Assignments") or [])
-                for o in mine):
+        elif path and inside_builder_argument(ir, g, path, [o for o in mine if o["Name"] in called]):
             continue          # the difference sits inside a nested object that has its own builder and converter:
                               # judged on that builder's own sample values
         if cause in ("value-lost", "value-changed") and not any(o["Name"] in called for o in mine) \
@@ -431,6 +429,21 @@ def judge(sm, ir, defaults, fail):
         if direct and called.count(o["Name"]) > 1:
             fail({"law": "each_needed_option_once", "cause": "direct-option-emitted-twice"}, "option %s appears %d times" % (o["Name"], called.count(o["Name"])))
             break
+
+
+def inside_builder_argument(ir, g, path, emitted):
+    """does the differing position (field g, then `path` inside it) lie inside a value that an emitted option
+    received as a nested BUILDER (argument type with a builder)?  such a difference is the nested builder's own"""
+    full = g + ("." + path if not path.startswith("[") else path)
+    for o in emitted:
+        for a in o.get("Assignments") or []:
+            t = (a["Value"].get("Argument") or {}).get("Type")
+            if t is None or not ir.has_builder(t):
+                continue
+            prefix = ".".join(it["Identifier"] for it in a["Path"] if it.get("Identifier"))
+            if full == prefix or full.startswith(prefix + ".") or full.startswith(prefix + "["):
+                return True
+    return False
 
 
 def options_for(b, g):
